@@ -1,6 +1,7 @@
 """C09 — client-level check (monitors on the real client through H-client; Lean obligations from Props/C09.lean)."""
 from vlib import *
 import client_check as CC
+import sender_check
 
 
 def run(ctx):
@@ -11,7 +12,9 @@ def run(ctx):
                        "cancellation signals), a broker (acks with reason codes/properties, inbound QoS 0/1/2 messages, held-back replies), byte chunking, connection loss with partial delivery, "
                        "reconnects with changing Receive Maximum / Server Keep Alive / Session Present, virtual time, then a fault-free suffix and cancel() or async_disconnect; "
                        "the C09 monitor runs on every transcript; non-trivial = distinct scenario with >= 2 (re)connections and > 3 operations")
-    found = CC.report(ctx, "C09", fails)
+    found_s = sender_check.run(ctx, 600 if ctx.tier == "quick" else 20000)
+    ctx.cov["rule"] += "; plus async_sender lock-step: scripts of send (PUBLISH/PUBREL/SUBSCRIBE/PINGREQ/terminal DISCONNECT flags), write completions with every result, replies, Receive Maximum changes, read-path resends and cancel() on the real async_sender (mock service) against the Lean sender model, output by output"
+    found = found_s or CC.report(ctx, "C09", fails)
     report_broken_ties(ctx, found)
     if ctx.tier == "thorough" and not ctx.ties_broken:
         for m, msg in leanchecker(ctx.lean.get("modules", [])):
